@@ -4,3 +4,4 @@ package main
 
 func hoStart()                        {}
 func hoReport(leakedSockets int) string { return "" }
+func hoArmDupFault() bool                { return false }
